@@ -45,8 +45,11 @@ Spellings == UNION {{<<fo, tl, wr>> : tl \in Tls(fo), wr \in Wrs(fo)} : fo \in F
 \* every 50th day meets every time of the menu, the other days one of them in turn
 TodsOf(o) == IF o % 50 = 0 THEN 1..Len(Tods) ELSE {(o % Len(Tods)) + 1}
 \* P(civil date, time of day, form, tl, wr, what is written) for every spelling of the day
+\* the numbers of decimals take turns: two of them per day
+FracSeq == <<1, 2, 3, 4, 5, 7, 8, 9>>
+DayFracTls(o) == {10 + FracSeq[(o % 8) + 1], 10 + FracSeq[((o + 3) % 8) + 1]}
 OnDay(P(_, _, _, _, _, _)) ==
-    k = "day" => LET c == FastYMD(a) IN \A i \in TodsOf(a) : \A s \in Spellings :
+    k = "day" => LET c == FastYMD(a) IN \A i \in TodsOf(a) : \A s \in {x \in Spellings : x[2] \in FracTls => x[2] \in DayFracTls(a)} :
                     P(c, Tods[i], s[1], s[2], s[3], Spell(s[1], c[1], c[2], c[3], Tods[i], s[3], s[2]))
 Spellable(c, fo) == fo \notin NsForms \/ c[1] <= 2261
 
@@ -121,9 +124,6 @@ Case(c, t, s, dl) ==
      cl |-> Clause("dt", s[1], s[3], dl, want)]
 \* the spellings that write the seconds with k decimals take their time from a menu whose fractions survive the cut
 FracTods == << <<20, 30, 40, 500000>>, <<12, 0, 0, 7000>>, <<1, 2, 3, 123456>>, <<23, 59, 59, 999000>>, <<0, 0, 0, 120000>> >>
-\* the numbers of decimals take turns: two of them per day
-FracSeq == <<1, 2, 3, 4, 5, 7, 8, 9>>
-DayFracTls(o) == {10 + FracSeq[(o % 8) + 1], 10 + FracSeq[((o + 3) % 8) + 1]}
 TodFor(o, i, tl) == IF tl > 10 THEN FracTods[((o + tl) % Len(FracTods)) + 1] ELSE GenTods[i]
 GenCasesNext ==
     LET c == FastYMD(a)
